@@ -462,11 +462,41 @@ func H_C12_compound_empty() {
 
 type hStructT struct{ a int }
 
+// defined types over supported underlying types are "other Go types" too
+type hNamedInt16 int16
+type hNamedInt64 int64
+type hNamedFloat32 float32
+type hNamedString string
+type hNamedSlice []any
+type hNamedMap map[string]any
+
 // values of any other Go type are rejected with a panic and leave the container unchanged
 func H_C12_reject() {
 	var v any
 	x := nondetInt()
-	switch nondetIntRange(0, 11) {
+	switch nondetIntRange(0, 22) {
+	case 12:
+		v = hNamedInt16(x)
+	case 13:
+		v = hNamedInt64(x)
+	case 14:
+		v = hNamedFloat32(1.5)
+	case 15:
+		v = hNamedString("s")
+	case 16:
+		v = hNamedSlice{x}
+	case 17:
+		v = hNamedMap{"a": x}
+	case 18:
+		v = (*int)(nil) // typed nil values of unsupported types are values of unsupported types
+	case 19:
+		v = (func())(nil)
+	case 20:
+		v = []byte(nil)
+	case 21:
+		v = (chan int)(nil)
+	case 22:
+		v = map[int]any(nil)
 	case 0:
 		v = []byte{byte(x)}
 	case 1:
